@@ -92,7 +92,8 @@ def run(ctx, modname: str, fname: str, recs: List[Dict[str, Any]], nworld: int =
       for t in r["tables"]:
         ctx.violation(dict(key_extra or {}, what="put_model table differs from ModelFamily.tla", table=t.split(":")[0]), t, dict(scen, xml=r.get("xml")))
       for name in sorted({b[0] for b in r["bad"]}):  # one violation per distinct field, so that a known finding on one field hides no other
-        ctx.violation(dict(key_extra or {}, what=what or "field differs from MuJoCo C", field=name),
+        fld, _, cls = name.partition("@")
+        ctx.violation(dict(key_extra or {}, what=what or "field differs from MuJoCo C", field=fld, **({"cls": cls} if cls else {})),
                       "; ".join(f"{n}: err {e:.3g} scale {s:.3g}" for n, e, s in r["bad"] if n == name)[:600], dict(scen, xml=r.get("xml")))
   ctx.extra["fields_compared"] = ctx.extra.get("fields_compared", 0) + nf
   ctx.extra["worst_error_over_tolerance"] = round(max(worst, ctx.extra.get("worst_error_over_tolerance", 0.0)), 4)
